@@ -620,6 +620,52 @@ def run_forward(pid, tier, t0):
                   "a shape the model calls valid that does not compile is a tool error (exit 2)"], t0, divs)
 
 
+def run_unmock_shapes(pid, tier, t0):
+    import gen, gen_c16, random
+    fam = "Q" if tier == "quick" else "T"
+    inst = {"module": "MC_Unmock", "spec": "Spec", "constants": {"Fam": '"%s"' % fam, "EmitOn": True}, "invariants": ["Emit"]}
+    r, cases = gen.tlc_cases(inst, "unmock_" + pid.lower(), timeout=1800)
+    total = len(cases)
+    rng = random.Random(vf.seed())
+    dropped = 0
+    if tier == "quick" and len(cases) > 160:
+        cases = rng.sample(cases, 160)
+    elif len(cases) > 3000:
+        cases = rng.sample(cases, 3000)
+    divs = []
+    n = 0
+    samples = []
+    for k in range(0, len(cases), 500):
+        part = cases[k:k + 500]
+        main_rs, exp = gen_c16.render(part)
+        name = "gen_c16_%d" % (k // 500)
+        gen.write_crate(name, main_rs)
+        obs, info = gen.build_and_run(name, timeout=3000)
+        if obs is None:
+            # cases that stopped compiling are not violations of C16: drop them (at most a third) and go on with the rest
+            errs, _ = gen.check_errors(name)
+            bad = {l for (f, l, c_, m_) in errs if f and f.endswith("main.rs")}
+            keep = [e["src_case"] for e in exp.values() if not any(e["lines"][0] <= l <= e["lines"][1] for l in bad)]
+            dropped_n = len(part) - len(keep)
+            if not errs or dropped_n == 0 or dropped_n * 3 > len(part):
+                log(str(info)[-2000:])
+                raise ToolError("generated unmock program does not build/run (%d compile errors over %d of %d cases; first: %s)" % (len(errs), dropped_n, len(part), errs[:2]))
+            dropped += dropped_n
+            main_rs, exp = gen_c16.render(keep)
+            gen.write_crate(name, main_rs)
+            obs, info = gen.build_and_run(name, timeout=3000)
+            if obs is None:
+                raise ToolError("generated unmock program does not build even without the cases that carry errors")
+        d = gen_c16.compare(exp, obs)
+        divs += [{"what": x["what"], "step": 0, "expected": x["expected"], "observed": x["observed"], "beh": {"kind": "generated-case", "case": x["exp"]}, "in_scope": True} for x in d]
+        n += len(exp)
+        samples += [{"attr": e["attr"], "method": e["sig"], "mode": e["shape"]["mode"], "expected_real_function_log": e["a"], "expected": e["k"]} for e in list(exp.values())[:3]]
+    cov = {"evaluations": n, "distinct_nontrivial": n, "programs": n, "states": r["distinct"], "transitions": r["generated"], "traces_validated_against_impl": n,
+           "shapes_in_grammar": total, "exhaustive": n == total, "samples": samples[:4], "cases_dropped_because_they_no_longer_compile": dropped,
+           "rule": "TLC enumerates traits with 1-3 methods of one signature, an optional non-mockable associated function first, every assignment of unmock_with entries (_, path, path(b, a)), the target method, receiver (&self, &mut self, Pin, by value), sync/async, partial fall-through vs applies_unmocked(), with or without a nested call back into the mock, and the expected invocation (tla/Shapes.tla UnmockExpected); each case is generated, built and run; the real functions record who ran and what they received"}
+    return finish(pid, tier, "exploration", cov, ["all methods of a generated trait share one signature so that a positional shift in the list compiles and becomes visible at run time"], t0, divs)
+
+
 COMMON_ASSUME = [
     "argument domain is a small finite set; matchers are total and side-effect free",
     "expectations are produced by TLC from tla/Mock.tla; the harness only compares observables (return ids, panic classes, verification lines, drop counters)",
@@ -680,6 +726,9 @@ def run_property(pid, tier, t0):
         return run_c14(pid, tier, t0)
     if pid == "C06":
         return run_matching(pid, tier, t0, "C06")
+    if pid == "C16":
+        return composite(pid, tier, t0, [("re-entrant real functions on the universe (Mock.tla frames, replay)", mock),
+                                         ("unmock_with forms / positions / receivers (Shapes.tla UnmockExpected, generated traits)", lambda: run_unmock_shapes(pid, tier, t0))])
     if pid == "C05":
         return run_forward(pid, tier, t0)
     if pid == "C19":
